@@ -398,10 +398,32 @@ class Sim:
                     np.array(a_max, dtype=np.float64))
         else:
             args = (tuple(a_names), a_def, np.array(a_min), a_max)
-        self.log.ev("new", names, mins, maxs, defaults, kw, bad, form)
+        # optional arguments left out: no bounds means unbounded, no defaults
+        # means zero brought inside the bounds
+        omit = cs.weighted("omit", [(None, 9), ("defaults", 3), ("mins", 1),
+                                    ("maxs", 1), ("all", 1)]) \
+            if bad is None else None
+        if omit is not None:
+            if omit in ("mins", "all"):
+                mins = [-INF] * n
+            if omit in ("maxs", "all"):
+                maxs = [INF] * n
+            if omit in ("defaults", "all"):
+                defaults = [min(max(0.0, lo), hi) for lo, hi in zip(mins, maxs)]
+            self.ctx.hit("probe.constructor_argument_omitted_" + omit)
+        self.log.ev("new", names, mins, maxs, defaults, kw, bad, form, omit)
         style = cs.draw("callstyle", 3)
         try:
-            if style == 1:
+            if omit is not None:
+                okw = dict(kw)
+                if omit not in ("defaults", "all"):
+                    okw["defaults"] = args[1]
+                if omit not in ("mins", "all"):
+                    okw["mins"] = args[2]
+                if omit not in ("maxs", "all"):
+                    okw["maxs"] = args[3]
+                v = Vector(args[0], **okw)
+            elif style == 1:
                 v = Vector(args[0], defaults=args[1], mins=args[2],
                            maxs=args[3], **kw)
             elif style == 2:
